@@ -303,7 +303,7 @@ static void explore_read(int doc, int depth, int from_file, int bound)
 static void enumerate(void)
 {
 	static const int flagsets[3] = {JSON_C_TO_STRING_PLAIN, JSON_C_TO_STRING_SPACED, JSON_C_TO_STRING_PRETTY | JSON_C_TO_STRING_PRETTY_TAB};
-	int bound = mc_tier ? 3 : 2;
+	int bound = mc_tier ? 4 : 2;
 	for (int doc = 0; doc <= NSIZES; doc++)
 		for (int f = 0; f < 3; f++)
 			for (int to_file = 0; to_file < 2; to_file++)
